@@ -617,8 +617,11 @@ func (g *gen) decorated() string {
 		return "[" + a + "]"
 	case p < 70:
 		z := hx.Pick(r, []string{"eth0", "1", "en0%x", "a b", "z]"})
-		if r.Pct(50) {
+		switch q := r.Intn(100); {
+		case q < 35:
 			return "[" + a + "%" + z + "]:" + hx.Pick(r, []string{"80", "4711"})
+		case q < 65:
+			return "[" + a + "%" + z + "]" // brackets, zone, no port
 		}
 		return a + "%" + z
 	case p < 75:
@@ -1128,6 +1131,8 @@ func main() {
 		{reqDesc{single: []string{"6.6.6.6", ""}}, &rdesc{kind: "single"}},
 		{reqDesc{single: []string{"6.6.6.6", "", ""}}, &rdesc{kind: "single"}},
 		{reqDesc{xff: []string{"6.6.6.6, 9.9.9.9, 10.0.0.3"}}, &rdesc{kind: "range", rangeOK: true, ranges: []string{"!10.0.0.7/8"}}},
+		{reqDesc{xff: []string{"6.6.6.6, [2607:f8b0:4004:83f::18%eth0]"}, fwd: []string{"for=6.6.6.6, for=\"[2607:f8b0:4004:83f::18%eth0]\""}}, &rdesc{kind: "rnp"}},
+		{reqDesc{xff: []string{"6.6.6.6, [2607:f8b0:4004:83f::18%eth0]"}, fwd: []string{"for=6.6.6.6, for=\"[2607:f8b0:4004:83f::18%eth0]\""}}, &rdesc{kind: "count", fwd: true, n: 1}},
 		// boundary parameters (all of uint) and zero-value structs
 		{reqDesc{xff: []string{"10.0.0.1, 8.8.8.8"}}, &rdesc{kind: "leftmost", n: math.MaxUint}},
 		{reqDesc{xff: []string{"10.0.0.1, 8.8.8.8"}}, &rdesc{kind: "leftmost", n: 1 << 63}},
